@@ -629,6 +629,67 @@ func codecs() []*codec {
 		eq:   func(a, b any) string { return certEq(a.(*certs.Certificate), b.(*certs.Certificate)) },
 		show: func(v any) any { return showCert(v.(*certs.Certificate)) },
 	})
+	// ---- a PEM bundle of several certificates (a CA file)
+	cs = append(cs, &codec{
+		name: "certs.Certificate.PEM-bundle",
+		gen: func(rng *vh.Rand) any {
+			var l []*certs.Certificate
+			for k := 1 + rng.Intn(4); k > 0; k-- {
+				l = append(l, randCert(rng))
+			}
+			return l
+		},
+		enc: func(v any) ([]byte, error) {
+			var all []byte
+			for _, c := range v.([]*certs.Certificate) {
+				b, err := certs.EncodeCertificateToPEM(c)
+				if err != nil {
+					return nil, err
+				}
+				all = append(all, b...)
+			}
+			return all, nil
+		},
+		dec: func(r io.Reader) (any, error) {
+			// self-delimiting text: the bundle ends with its last END line
+			all, _ := io.ReadAll(r)
+			const endLine = "-----END HOP CERTIFICATE-----\n"
+			end := bytes.LastIndex(all, []byte(endLine))
+			if end < 0 {
+				end = 0 // an empty bundle
+			} else {
+				end += len(endLine)
+			}
+			if rs, ok := r.(io.Seeker); ok {
+				rs.Seek(int64(end-len(all)), io.SeekCurrent)
+			}
+			cl, err := certs.ReadManyCertificatesPEM(bytes.NewReader(all[:end]))
+			var l []*certs.Certificate
+			for i := range cl {
+				l = append(l, &cl[i])
+			}
+			return l, err
+		},
+		eq: func(a, b any) string {
+			x, y := a.([]*certs.Certificate), b.([]*certs.Certificate)
+			if len(x) != len(y) {
+				return fmt.Sprintf("count(%d!=%d)", len(x), len(y))
+			}
+			for i := range x {
+				if d := certEq(x[i], y[i]); d != "" {
+					return fmt.Sprintf("certificate-%d-of-%d:%s", i+1, len(x), d)
+				}
+			}
+			return ""
+		},
+		show: func(v any) any {
+			var l []any
+			for _, c := range v.([]*certs.Certificate) {
+				l = append(l, showCert(c))
+			}
+			return l
+		},
+	})
 	// ---- authgrants.Intent
 	cs = append(cs, &codec{
 		name: "authgrants.Intent",
